@@ -48,6 +48,7 @@ type Cfg struct {
 	Mode    string `json:"mode,omitempty"`  // world-specific mode
 	Strat   string `json:"strat,omitempty"` // interleaving strategy
 	SwitchP int    `json:"switchp,omitempty"`
+	Skip    int    `json:"skip,omitempty"`  // > 1: the harness observes the container only after about every Skip-th step
 	Pool    int    `json:"pool,omitempty"` // version of the special-value pools the element tables are drawn from
 }
 
